@@ -131,8 +131,8 @@ add("C15", "TestC15", "exploration",
     "exhaustive enumeration of small integer domains + property-based testing (rapid) with an independent reference encoder", "DESIGN.md §4 C15")
 
 add("C16", "TestC16", "exploration",
-    dict(cases=40000, shards=8, extra=[dict(test="TestC16Exhaustive", shards=8), dict(test="TestC16ConcurrentInits", shards=1)]),
-    dict(cases=400000, shards=16, timeout_s=3000, extra=[dict(test="TestC16Exhaustive", shards=16, timeout_s=3000), dict(test="TestC16ConcurrentInits", shards=1, timeout_s=3000)]),
+    dict(cases=40000, shards=8, extra=[dict(test="TestC16Exhaustive", shards=8), dict(test="TestC16ConcurrentInits", shards=1), dict(test="TestC16ConcurrentReaders", shards=1)]),
+    dict(cases=400000, shards=16, timeout_s=3000, extra=[dict(test="TestC16Exhaustive", shards=16, timeout_s=3000), dict(test="TestC16ConcurrentInits", shards=1, timeout_s=3000), dict(test="TestC16ConcurrentReaders", shards=1, timeout_s=3000)]),
     "exhaustive: every index set of <= 3 elements within 2-3 bitmap words and every 2-element set within 5 words, every index of the span probed; rapid: ascending index sets in [0, 2^20) (empty, single, dense runs, sparse, clusters separated by empty 64-bit words, word-boundary indexes) x element kinds U16/U32/U64/I16/I32/I64 (edge and random values) and a fixed-size struct via array.New; probes = every index of the span when span <= 4096, else listed +-1, word boundaries and drawn; 1/3 invalid inputs (equal/descending neighbours at a drawn position, length off by 1..5); plus rounds of 8 goroutines constructing arrays of different kinds at the same time (10 quick / 100 thorough); non-trivial = an empty bitmap word between populated words (or an invalid input)",
     "Generated-input search against a map[int32]T model: typed Get, raw GetBytes and generic Get agree with the model at every probe within the bitmap span, also after proto.Marshal -> proto.Unmarshal into the typed type and into array.NewEmpty(T); invalid input is rejected with the dedicated error, builds nothing, and a rejected Init leaves an existing array unchanged.",
     "Trusted: the map model. Probes beyond the bitmap span are not claimed (accessors index out of range there by design).",
